@@ -299,8 +299,13 @@ func mutateField(g gen, v reflect.Value, taskNames []string) string {
 			if f.Type().Elem().Kind() == reflect.Int {
 				if f.IsNil() {
 					n := 1 + g.n(4)
+					// unset versus explicitly zero is the classic confusion of optional numbers (queue_limit: 0 means
+					// "never queue", no queue_limit means "unbounded"); zero only where it stays a valid definition
+					if sd := v.FieldByName("StartDelay"); g.p(350) && !(name == "QueueLimit" && sd.IsValid() && sd.Int() > 0) {
+						n = 0
+					}
 					f.Set(reflect.ValueOf(&n))
-					return name + " set"
+					return fmt.Sprintf("%s set to %d", name, n)
 				}
 				if g.p(300) {
 					f.Set(reflect.Zero(f.Type()))
@@ -403,6 +408,9 @@ func genDef(g gen) definition.PipelineDef {
 	}
 	if g.p(300) {
 		p.StartDelay = time.Duration(1+g.n(10)) * time.Second
+	} else if g.p(200) {
+		zero := 0
+		p.QueueLimit = &zero // "never queue": distinct from no limit at all
 	}
 	p.ContinueRunningTasksAfterFailure = g.p(300)
 	if g.p(300) {
